@@ -156,12 +156,16 @@ fn check_crate_dir() -> std::path::PathBuf {
     verif_root().join("harness/checkcrate")
 }
 
-/// write the cases into the check crate and run `cargo check`; returns per case index the error messages
-fn cargo_check(cases: &[(usize, String)]) -> Result<BTreeMap<usize, Vec<String>>, String> {
-    let dir = check_crate_dir();
+/// write the cases into a copy of the check crate (one per slot, so that batches can run in parallel) and
+/// run `cargo check`; returns per case index the error messages
+fn cargo_check(cases: &[(usize, String)], slot: usize) -> Result<BTreeMap<usize, Vec<String>>, String> {
+    let dir = verif_root().join(format!("harness/target/c01/slot{slot}/crate"));
     let src = dir.join("src");
     let _ = std::fs::remove_dir_all(&src);
     std::fs::create_dir_all(&src).map_err(|e| e.to_string())?;
+    for f in ["Cargo.toml", "Cargo.lock"] {
+        std::fs::copy(check_crate_dir().join(f), dir.join(f)).map_err(|e| format!("{f}: {e}"))?;
+    }
     let mut lib = String::from("#![allow(warnings)]\n");
     for (i, text) in cases {
         std::fs::write(src.join(format!("case_{i}.rs")), text).map_err(|e| e.to_string())?;
@@ -172,7 +176,7 @@ fn cargo_check(cases: &[(usize, String)]) -> Result<BTreeMap<usize, Vec<String>>
         .args(["check", "--offline", "--quiet", "--message-format=json", "--manifest-path"])
         .arg(dir.join("Cargo.toml"))
         .arg("--target-dir")
-        .arg(verif_root().join("harness/target/checkcrate"))
+        .arg(verif_root().join(format!("harness/target/c01/slot{slot}/target")))
         .env("CARGO_NET_OFFLINE", "true")
         .env_remove("RUSTFLAGS")
         .env("CARGO_ENCODED_RUSTFLAGS", "")
@@ -246,6 +250,26 @@ fn classify(msg: &str, case: &Case) -> String {
             return "C01_default_given_by_value_reference".into();
         }
     }
+    if m.contains("E0308") && m.contains("_default () -> Integer {") {
+        // `fn x_default () -> Integer { 5 }`
+        let lit = m.split("_default () -> Integer {").skip(1).any(|r| {
+            let body: String = r.chars().take_while(|c| *c != '}').collect();
+            let b = body.trim();
+            !b.is_empty() && b.chars().all(|c| c.is_ascii_digit() || c == '-')
+        });
+        if lit {
+            return "C01_integer_default_of_nested_member_is_a_bare_literal".into();
+        }
+    }
+    if m.contains("FromStr` is not satisfied") && m.contains(". parse :: <") {
+        return "C01_time_value_of_an_alias_parses_into_the_newtype".into();
+    }
+    if m.contains("Oid :: new (") && (m.contains("E0425") || m.contains("E0423")) {
+        return "C01_struct_value_read_as_object_identifier".into();
+    }
+    if m.contains("E0308") && m.contains("alloc :: vec ! [") {
+        return "C01_list_value_of_a_type_with_hoisted_element".into();
+    }
     if m.contains("E0277") && m.contains("BitArray") && m.contains("collect") {
         return "C01_named_bits_value_of_fixed_size_bit_string".into();
     }
@@ -300,33 +324,63 @@ pub fn run(cfg: &RunCfg) -> Report {
             Outcome::Panic(_) => rep.count("compile-panic(C08)"),
         }
     }
-    // type-check in rounds: cases with errors are reported and taken out
-    let mut round = 0;
-    while !pending.is_empty() && round < 6 {
-        round += 1;
-        match cargo_check(&pending) {
-            Ok(errs) => {
-                if errs.is_empty() {
-                    rep.count(&format!("cargo-check:clean-after-round-{round}"));
-                    for _ in &pending {
-                        rep.count("type-checks");
-                    }
-                    pending.clear();
+    // type-check in batches (parallel slots), each in rounds: cases with errors are reported and taken out
+    let batch = 120;
+    let slots = 6;
+    let batches: Vec<Vec<(usize, String)>> = pending.chunks(batch).map(|c| c.to_vec()).collect();
+    pending.clear();
+    let results: std::sync::Mutex<Vec<(Vec<(usize, Vec<String>)>, usize, Vec<String>, Vec<(usize, String)>)>> = std::sync::Mutex::new(Vec::new());
+    let next = std::sync::atomic::AtomicUsize::new(0);
+    std::thread::scope(|sc| {
+        for slot in 0..slots.min(batches.len().max(1)) {
+            let (batches, results, next) = (&batches, &results, &next);
+            sc.spawn(move || loop {
+                let k = next.fetch_add(1, std::sync::atomic::Ordering::SeqCst);
+                if k >= batches.len() {
                     break;
                 }
-                for (i, msgs) in &errs {
-                    let c = &cases[*i];
-                    let class = classify(&msgs.join(" | "), c);
-                    rep.unsat(&class, !class.is_empty(), json!({"why": format!("{} does not type-check against rasn: {}", c.label, msgs.iter().take(3).cloned().collect::<Vec<_>>().join(" | ")), "case": {"sources": c.sources, "config": c.opt.to_json()}}));
+                let mut todo = batches[k].clone();
+                let mut failed: Vec<(usize, Vec<String>)> = Vec::new();
+                let mut harness: Vec<String> = Vec::new();
+                let mut clean = 0;
+                let mut round = 0;
+                while !todo.is_empty() && round < 6 {
+                    round += 1;
+                    match cargo_check(&todo, slot) {
+                        Ok(errs) => {
+                            if errs.is_empty() {
+                                clean += todo.len();
+                                todo.clear();
+                                break;
+                            }
+                            for (i, msgs) in &errs {
+                                failed.push((*i, msgs.clone()));
+                            }
+                            todo.retain(|(i, _)| !errs.contains_key(i));
+                        }
+                        Err(e) => {
+                            harness.push(e);
+                            break;
+                        }
+                    }
                 }
-                pending.retain(|(i, _)| !errs.contains_key(i));
-            }
-            Err(e) => {
-                rep.harness_errors.push(e);
-                break;
-            }
+                results.lock().unwrap().push((failed, clean, harness, todo));
+            });
         }
+    });
+    for (failed, clean, harness, left) in results.into_inner().unwrap() {
+        for _ in 0..clean {
+            rep.count("type-checks");
+        }
+        for (i, msgs) in failed {
+            let c = &cases[i];
+            let class = classify(&msgs.join(" | "), c);
+            rep.unsat(&class, !class.is_empty(), json!({"why": format!("{} does not type-check against rasn: {}", c.label, msgs.iter().take(3).cloned().collect::<Vec<_>>().join(" | ")), "case": {"sources": c.sources, "config": c.opt.to_json()}}));
+        }
+        rep.harness_errors.extend(harness);
+        pending.extend(left);
     }
+    let round = 6;
     if !pending.is_empty() {
         rep.harness_errors.push(format!("{} cases left unchecked after {round} rounds", pending.len()));
     }
